@@ -284,8 +284,14 @@ class Switch(Generic[R], GenerativeFunction[R]):
         rets = multi_switch(new_idx, fs, f_args)
 
         subtraces = list(t[0] for t in rets)
+        # the branches' return diffs are chosen among at run time, so they must carry
+        # the same (static) change tags: keep NoChange only if every branch reports it
+        retdiffs = list(rd for _, _, rd, _ in rets)
+        if not all(Diff.static_check_no_change(rd) for rd in retdiffs):
+            retdiffs = list(Diff.unknown_change(rd) for rd in retdiffs)
         score, weight, retdiff = tree_choose(
-            new_idx, list((tr.get_score(), w, rd) for tr, w, rd, _ in rets)
+            new_idx,
+            list((t[0].get_score(), t[1], rd) for t, rd in zip(rets, retdiffs)),
         )
         retval: R = Diff.tree_primal(retdiff)
 
